@@ -19,6 +19,9 @@ inductive IEntry where
   | file (name : Bytes) (content : Bytes)
   | dir (name : Bytes) (entries : List IEntry)
   | link (name : Bytes) (content : Bytes)
+  /-- an entry that is not a directory (by `lstat`) and that cannot be read: a symbolic link to nothing or to
+  a directory.  Nothing looks at it unless its name has a template suffix (`Abort.lean`). -/
+  | dead (name : Bytes)
 
 /-- how `handle_entries` sees a listing: `DirEntry::file_type` does not follow links, so a link is "not a
 directory" and is treated like a file — opened (through the link) if its name has a template suffix -/
@@ -26,6 +29,7 @@ def viewTemplates : List IEntry → List Entry
   | [] => []
   | .file n c :: r => .file n c :: viewTemplates r
   | .link n c :: r => .file n c :: viewTemplates r
+  | .dead _ :: r => viewTemplates r     -- faithful when the name has no template suffix; otherwise `viewTemplatesA`
   | .dir n es :: r => .dir n (viewTemplates es) :: viewTemplates r
 
 /-- how `add_files` / `add_files_as` see a listing: a link is neither `is_file()` nor `is_dir()` and is
@@ -34,6 +38,7 @@ def viewStatics : List IEntry → List Entry
   | [] => []
   | .file n c :: r => .file n c :: viewStatics r
   | .link _ _ :: r => viewStatics r
+  | .dead _ :: r => viewStatics r
   | .dir n es :: r => .dir n (viewStatics es) :: viewStatics r
 
 /-- what is at a path: a file's bytes, or a directory's whole subtree (entries in `read_dir` order) -/
